@@ -18,6 +18,24 @@ For the diagonal classes the model has the constructors themselves (`diag_ctor`:
 _reshape_leaves + DiagonalOperator._check_leaf_shapes): accept/refuse, the normalised axes and the leaf
 shapes of the ACTUAL mv result are compared with it, and `ctor_checked` re-computes on every existing
 diagonal object the check its constructor is supposed to have made.
+
+The guards are about what the USER supplied (kinds mix:*).  An operator is judged when the parameters handed to the
+constructors and the scalars written in k * op, op * k, op / k, -op, a - b are no wider than the data and the parts
+are inside the guards (`guard_user`, `guard_parts`) - whatever the resulting object stores: a construction path
+that widens a parameter (casts the scalar to the promoted dtype of a mixed-PRECISION output pytree, say) does not
+thereby leave the scope of the property.  Operators whose OUTPUT pytree has leaves of different precisions
+(float16 / bfloat16 + float32, float32 + float64, float16 + float32 + float64, int32 + float32; dict, list, nested,
+Stokes) x every construction path that introduces a scalar or a parameter x every way of writing the scalar
+(Python int / float / bool, NumPy scalars and 0-d arrays, strongly and weakly typed JAX scalars of each dtype), compared
+leaf by leaf: declared vs eval_shape vs actual mv vs an application of the operator it stands for.  The model
+receives the types of the user's parameters too (`uinfo`; the type of the scalar operator of k * op / op / k is
+computed by the model: Structs.scalar_param_ty) and predicts the guard and what mv returns from them.
+
+Reduced operators (kinds pat:*): every documented pattern of every binary rule AND the near misses (pairs that look
+like a pattern but must NOT be rewritten: another reshape / ravel / pack / index / diagonal operator sharing a side,
+move-axis pairs with crossed pairing, equal but distinct objects, containers nested on one side only...), as
+CompositionOperator([...]) and through @, alone and inside a block / scaled: the declared structures of the reduced
+operator vs those implied by the parts, vs eval_shape, vs an actual application, vs an application of the unreduced one.
 """
 from __future__ import annotations
 
@@ -52,6 +70,61 @@ def x64_mode() -> bool:
 
 
 # ---------------------------------------------------------------------------------------------
+# scalars of the scalar construction paths (k * op, op * k, op / k): every form a user can write
+
+
+_alg_scalar_value = A.scalar_value
+
+
+def scalar_value(k):
+    """JSON scalar -> Python / NumPy / JAX scalar.  2, 0.5, true: Python int / float / bool (weakly typed once
+    converted); {'np': v, 'dt': d}: NumPy scalar of dtype d; {'np0d': v, 'dt': d}: 0-d NumPy array; {'jax': v, 'dt': d}:
+    strongly typed 0-d JAX array; {'jaxw': v}: jnp.asarray(v) of a Python scalar (weakly typed).  Forms without 'dt'
+    keep the meaning of harness/algebra.py (float32)."""
+    jnp = A.J()['jnp']
+    if isinstance(k, dict) and 'jaxw' in k:
+        return jnp.asarray(k['jaxw'])
+    if isinstance(k, dict) and 'dt' in k:
+        if 'np' in k:
+            return np.dtype(k['dt']).type(k['np']) if k['dt'] != 'bfloat16' else jnp.asarray(k['np'], dtype=jnp.bfloat16)
+        if 'np0d' in k:
+            return np.array(k['np0d'], dtype=np.dtype(k['dt']))
+        if 'jax' in k:
+            return jnp.asarray(k['jax'], dtype=jnp.dtype(k['dt']))
+    return _alg_scalar_value(k)
+
+
+A.scalar_value = scalar_value  # algebra.eval_expr resolves the name at call time (this process and the x64 worker only)
+
+
+def scalar_path(e):
+    """(path, scalar, operand expression) of an expression whose TOP-LEVEL operation introduces a scalar:
+    k * op, op * k, -op (k = -1), a - b (k = -1 on b): path 'mul';  op / k: path 'div'.  None otherwise."""
+    if not isinstance(e, dict):
+        return None
+    (kind, arg), = e.items()
+    if kind == 'smul':
+        return 'mul', arg[0], arg[1]
+    if kind == 'mulr':
+        return 'mul', arg[1], arg[0]
+    if kind == 'div':
+        return 'div', arg[1], arg[0]
+    if kind == 'neg':
+        return 'mul', -1, arg
+    if kind == 'sub':
+        return 'mul', -1, arg[1]
+    return None
+
+
+def user_scalar(path, k):
+    """(raw, effective): the scalar as the user wrote it, as a JAX array (dtype, weak flag), and the PARAMETER it
+    stands for: k itself for a product, 1 / k for a quotient (JAX arithmetic only; no furax code involved)."""
+    jnp = A.J()['jnp']
+    raw = jnp.asarray(scalar_value(k))
+    return raw, (1 / raw if path == 'div' else raw)
+
+
+# ---------------------------------------------------------------------------------------------
 # structures and operands from JSON
 
 
@@ -79,29 +152,45 @@ def param(v, pdt):
     return jnp.asarray(np.array(v), dtype=jnp.dtype(pdt))
 
 
-def build(d, env):
+def build(d, env, user=None):
+    """The operand of a description.  `user` (id of the object -> array) receives the array parameter exactly as it
+    was handed to the constructor: the guards of the property are about what the USER supplied."""
     j = A.J()
     k = d['k']
     pdt = d.get('pdt', F32)
+
+    def made(op, p):
+        if user is not None:
+            user[id(op)] = p
+        return op
+
+    if k == 'alg':  # an operand of the shared alphabet harness/alg_cases.py (float32)
+        return A.build_operand(d['d'], env)
     if k == 'homoth':
-        return j['core'].HomothetyOperator(param(d['v'], pdt), mk_struct(d['s']))
+        p = param(d['v'], pdt)
+        return made(j['core'].HomothetyOperator(p, mk_struct(d['s'])), p)
     if k == 'ident':
         return j['core'].IdentityOperator(mk_struct(d['s']))
     if k == 'diag':
-        return j['diagonal'].DiagonalOperator(param(d['v'], pdt), axis_destination=d.get('axis', -1), in_structure=mk_struct(d['s']))
+        p = param(d['v'], pdt)
+        return made(j['diagonal'].DiagonalOperator(p, axis_destination=d.get('axis', -1), in_structure=mk_struct(d['s'])), p)
     if k == 'bdiag':
-        return j['diagonal'].BroadcastDiagonalOperator(param(d['v'], pdt), axis_destination=d.get('axis', -1), in_structure=mk_struct(d['s']))
+        p = param(d['v'], pdt)
+        return made(j['diagonal'].BroadcastDiagonalOperator(p, axis_destination=d.get('axis', -1), in_structure=mk_struct(d['s'])), p)
     if k == 'dense':
-        return j['dense'].DenseBlockDiagonalOperator(param(d['m'], pdt), mk_struct(d['s']), d.get('sub', 'ij,j->i'))
+        p = param(d['m'], pdt)
+        return made(j['dense'].DenseBlockDiagonalOperator(p, mk_struct(d['s']), d.get('sub', 'ij,j->i')), p)
     if k == 'qurot':
         a = np.array(d['q'], dtype=np.float64) * (math.pi / 4)
-        return j['qu'].QURotationOperator(param(a, pdt), mk_struct(d['s']))
+        p = param(a, pdt)
+        return made(j['qu'].QURotationOperator(p, mk_struct(d['s'])), p)
     if k == 'hwp':
         return j['hwp'].HWPOperator(mk_struct(d['s']))
     if k == 'pol':
         return j['pol'].LinearPolarizerOperator(mk_struct(d['s']))
     if k == 'toeplitz':
-        return j['toeplitz'].SymmetricBandToeplitzOperator(param(d['band'], pdt), mk_struct(d['s']), method=d.get('method', 'dense'))
+        p = param(d['band'], pdt)
+        return made(j['toeplitz'].SymmetricBandToeplitzOperator(p, mk_struct(d['s']), method=d.get('method', 'dense')), p)
     if k == 'index':
         idx = tuple(A.index_entry(e) for e in d['idx'])
         kw = {}
@@ -155,6 +244,9 @@ def expr_check(e, env):
     if kind in ('smul',):
         o, r = expr_check(arg[1], env)
         return (None, r) if r else (A.eval_expr({kind: [arg[0], '#'] }, {**env, '#': o}), None)
+    if kind in ('mulr', 'div'):
+        o, r = expr_check(arg[0], env)
+        return (None, r) if r else (A.eval_expr({kind: ['#', arg[1]]}, {**env, '#': o}), None)
     o, r = expr_check(arg, env)
     if r:
         return None, r
@@ -188,13 +280,27 @@ def legal_reason(d, env):
 class Enc(A.Encoder):
     """Terms without measured matrices (structures only) + the type/shape of the array parameters."""
 
-    def __init__(self):
+    def __init__(self, user=None, scalars=None):
         super().__init__()
         self.info: dict[int, tuple] = {}
+        # the same table with the TYPE (dtype, weak flag) of the parameter the user supplied, where it is known:
+        # `user`: id(object) -> the array handed to the constructor; `scalars`: id(HomothetyOperator created by a
+        # scalar construction path) -> (path, raw scalar as an array): the model computes the parameter type itself
+        self.user = user or {}
+        self.scalars = scalars or {}
+        self.uinfo: dict[int, tuple] = {}
 
-    def add_info(self, i, arr, axes=()):
+    def add_info(self, i, arr, axes=(), op=None):
         weak = bool(getattr(arr, 'weak_type', False))
         self.info[i] = (str(np.dtype(arr.dtype)), weak, [int(n) for n in arr.shape], [int(a) for a in axes])
+        if op is not None and id(op) in self.scalars:
+            path, raw = self.scalars[id(op)]
+            self.uinfo[i] = ('scalar', path, str(np.dtype(raw.dtype)), bool(getattr(raw, 'weak_type', False)))
+        elif op is not None and id(op) in self.user:
+            u = self.user[id(op)]
+            self.uinfo[i] = (str(np.dtype(u.dtype)), bool(getattr(u, 'weak_type', False)), self.info[i][2], self.info[i][3])
+        else:
+            self.uinfo[i] = self.info[i]
 
     def term(self, op) -> str:
         j = A.J()
@@ -204,7 +310,7 @@ class Enc(A.Encoder):
         if isinstance(op, core.IdentityOperator):
             return f'(Ident {i} {A.struct_coq(op.in_structure())})'
         if isinstance(op, core.HomothetyOperator):
-            self.add_info(i, op.value)
+            self.add_info(i, op.value, op=op)
             return f'(Homoth {i} {A.cqc(1)} {A.struct_coq(op.in_structure())})'
         if isinstance(op, core.CompositionOperator):
             return f'(Comp {i} {clist(op.operands, self.term)})'
@@ -222,26 +328,39 @@ class Enc(A.Encoder):
         si, so = A.struct_coq(op.in_structure()), A.struct_coq(op.out_structure())
         par = 'PNone'
         if cls == 'CQURotation':
-            self.add_info(i, op.angles)
+            self.add_info(i, op.angles, op=op)
         elif cls in ('CDiagonal', 'CBroadcastDiagonal'):
-            self.add_info(i, op.diagonal, op.axis_destination)
+            self.add_info(i, op.diagonal, op.axis_destination, op=op)
         elif cls == 'CDense':
             jnp = j['jnp']
-            bl = j['jax'].tree.leaves(op.blocks)
-            self.info[i] = (str(np.dtype(jnp.result_type(*bl))), all(bool(getattr(b, 'weak_type', False)) for b in bl), [], [])
+            for tab, blocks in ((self.info, op.blocks), (self.uinfo, self.user.get(id(op), op.blocks))):
+                bl = j['jax'].tree.leaves(blocks)
+                tab[i] = (str(np.dtype(jnp.result_type(*bl))), all(bool(getattr(b, 'weak_type', False)) for b in bl), [], [])
         elif cls == 'CToeplitz':
-            self.add_info(i, op.band_values)
+            self.add_info(i, op.band_values, op=op)
         elif cls == 'CIndex':
             par = f'(PIndex {cbool(op.unique_indices)} {clist([self.ientry(e) for e in op.indices], str)})'
         elif cls == 'CMoveAxis':
             par = f'(PAxes {clist(op.source, A.cz)} {clist(op.destination, A.cz)})'
         return f'(Prim {i} {cls} {si} {so} {par})'
 
-    def info_coq(self) -> str:
+    @staticmethod
+    def rows_coq(table) -> str:
         rows = []
-        for i, (dt, weak, shape, axes) in self.info.items():
+        for i, row in table.items():
+            if row[0] == 'scalar':
+                _, path, dt, weak = row
+                rows.append(f'({i}%N, scalar_pinfo x64 {"SDiv" if path == "div" else "SMul"} (ST.mkTy {DT_COQ.get(dt, "ST.DBool")} {cbool(weak)}))')
+                continue
+            dt, weak, shape, axes = row
             rows.append(f'({i}%N, mkPinfo (ST.mkTy {DT_COQ.get(dt, "ST.DBool")} {cbool(weak)}) {clist(shape, A.cn)} {clist(axes, A.cz)})')
         return clist(rows, str)
+
+    def info_coq(self) -> str:
+        return self.rows_coq(self.info)
+
+    def uinfo_coq(self) -> str:
+        return self.rows_coq(self.uinfo)
 
 
 # ---------------------------------------------------------------------------------------------
@@ -285,22 +404,29 @@ def bshape(a, b):
         return None
 
 
-def real_guard(op) -> bool:
-    """params_not_wider, computed on the real objects (independently of the model)."""
+def real_guard(op, user=None) -> bool:
+    """params_not_wider, computed on the real objects (independently of the model).  With `user` (id of an object ->
+    the parameter the USER supplied for it): the same guard with the types of those parameters instead of the types
+    of what the object stores."""
     j = A.J()
     jax, jnp, core, blocks = j['jax'], j['jnp'], j['core'], j['blocks']
     leaves = jax.tree.leaves
+    user = user or {}
+
+    def par(stored):  # only the TYPE of the parameter matters to `absorbs`
+        return user.get(id(op), stored)
+
     if isinstance(op, core.HomothetyOperator):
-        return all(absorbs(op.value, l) for l in leaves(op.in_structure()))
+        return all(absorbs(par(jnp.asarray(op.value)), l) for l in leaves(op.in_structure()))
     if isinstance(op, j['diagonal'].DiagonalInverseOperator):
-        return real_guard(op.operator) and all(absorbs(op.diagonal, l) for l in leaves(op.in_structure()))
+        return real_guard(op.operator, user) and all(absorbs(op.diagonal, l) for l in leaves(op.in_structure()))
     if isinstance(op, j['diagonal'].DiagonalOperator):
-        return all(absorbs(op.diagonal, l) for l in leaves(op.in_structure()))
+        return all(absorbs(par(op.diagonal), l) for l in leaves(op.in_structure()))
     if isinstance(op, j['toeplitz'].SymmetricBandToeplitzOperator):
         s = op.in_structure()
         if not isinstance(s, jax.ShapeDtypeStruct) or len(s.shape) < 1 or op.band_values.ndim < 1:
             return False
-        return absorbs(op.band_values, s) and bshape(s.shape[:-1], op.band_values.shape[:-1]) == tuple(s.shape[:-1])
+        return absorbs(par(op.band_values), s) and bshape(s.shape[:-1], op.band_values.shape[:-1]) == tuple(s.shape[:-1])
     if isinstance(op, j['qu'].QURotationOperator):
         s = op.in_structure()
         if not A.is_stokes(s):
@@ -308,49 +434,93 @@ def real_guard(op) -> bool:
         if s.stokes == 'I':
             return True
         q, u = s.q, s.u
-        trig = jnp.cos(2 * op.angles)
+        trig = jnp.cos(2 * par(op.angles))
         return (q.shape == u.shape and q.dtype == u.dtype and absorbs(trig, q)
                 and bshape(q.shape, op.angles.shape) == tuple(q.shape))
     if isinstance(op, j['hwp'].HWPOperator):
         return A.is_stokes(op.in_structure())
     if isinstance(op, j['pol'].LinearPolarizerOperator):
         # 0.5 * x on integer data is weakly typed: the dtype of a product with it is decided by the other factor
-        return all(np.issubdtype(np.dtype(l.dtype), np.inexact) for l in leaves(op.in_structure()))
+        return all(_inexact(l.dtype) for l in leaves(op.in_structure()))
     if A.wrap_kind(op) in ('WTranspose', 'WObsT'):
         # jax.linear_transpose: [float or complex] -> [float or complex] or integer -> integer only
         ls = [np.dtype(l.dtype) for s in (op.operator.in_structure(), op.operator.out_structure()) for l in leaves(s)]
-        ok = all(np.issubdtype(d, np.inexact) for d in ls) or all(np.issubdtype(d, np.integer) for d in ls)
-        return ok and real_guard(op.operator)
+        ok = all(_inexact(d) for d in ls) or all(np.issubdtype(d, np.integer) for d in ls)
+        return ok and real_guard(op.operator, user)
     if A.wrap_kind(op) is not None:
-        return real_guard(op.operator)
+        return real_guard(op.operator, user)
     if isinstance(op, core.CompositionOperator):
-        return all(real_guard(o) for o in op.operands)
+        return all(real_guard(o, user) for o in op.operands)
     if isinstance(op, core.AdditionOperator):
-        return all(real_guard(o) for o in op.operand_leaves)
+        return all(real_guard(o, user) for o in op.operand_leaves)
     if isinstance(op, blocks.AbstractBlockOperator):
-        return all(real_guard(o) for o in op.block_leaves)
+        return all(real_guard(o, user) for o in op.block_leaves)
     return True
 
 
-def strict_guard(op) -> bool:
+def strict_guard(op, user=None) -> bool:
     """real_guard + the array parameters of dense / broadcast-diagonal operators are no wider than the data
     (their own declaration is the evaluation, but the structures of their transposes depend on it)."""
     j = A.J()
     jax, core, blocks = j['jax'], j['core'], j['blocks']
-    if not real_guard(op):
+    user = user or {}
+    if not real_guard(op, user):
         return False
     if isinstance(op, j['dense'].DenseBlockDiagonalOperator):
-        return all(absorbs(b, l) for l in jax.tree.leaves(op.in_structure()) for b in jax.tree.leaves(op.blocks))
+        return all(absorbs(b, l) for l in jax.tree.leaves(op.in_structure()) for b in jax.tree.leaves(user.get(id(op), op.blocks)))
     if isinstance(op, j['diagonal'].BroadcastDiagonalOperator):
-        return all(absorbs(op.diagonal, l) for l in jax.tree.leaves(op.in_structure()))
+        d = user.get(id(op), op.diagonal)
+        return all(absorbs(d, l) for l in jax.tree.leaves(op.in_structure()))
     if A.wrap_kind(op) is not None:
-        return strict_guard(op.operator)
+        return strict_guard(op.operator, user)
     if isinstance(op, core.CompositionOperator):
-        return all(strict_guard(o) for o in op.operands)
+        return all(strict_guard(o, user) for o in op.operands)
     if isinstance(op, core.AdditionOperator):
-        return all(strict_guard(o) for o in op.operand_leaves)
+        return all(strict_guard(o, user) for o in op.operand_leaves)
     if isinstance(op, blocks.AbstractBlockOperator):
-        return all(strict_guard(o) for o in op.block_leaves)
+        return all(strict_guard(o, user) for o in op.block_leaves)
+    return True
+
+
+def _inexact(d) -> bool:
+    """float (incl. bfloat16, which NumPy does not classify) or complex"""
+    jnp = A.J()['jnp']
+    return bool(jnp.issubdtype(d, jnp.inexact))
+
+
+def subobjects(op, acc=None):
+    """id -> object for every operator object reachable from op."""
+    j = A.J()
+    core, blocks = j['core'], j['blocks']
+    acc = {} if acc is None else acc
+    if id(op) in acc:
+        return acc
+    acc[id(op)] = op
+    kids = ()
+    if isinstance(op, core.CompositionOperator):
+        kids = op.operands
+    elif isinstance(op, core.AdditionOperator):
+        kids = op.operand_leaves
+    elif isinstance(op, blocks.AbstractBlockOperator):
+        kids = op.block_leaves
+    elif A.wrap_kind(op) is not None:
+        kids = (op.operator,)
+    for k in kids:
+        subobjects(k, acc)
+    return acc
+
+
+def all_lt_ok(op) -> bool:
+    """Every non-composite operator inside op maps floats to floats or integers to integers (what
+    jax.linear_transpose accepts): the guard of a transpose, computed on the operator to be transposed."""
+    j = A.J()
+    jax, core, blocks = j['jax'], j['core'], j['blocks']
+    for o in subobjects(op).values():
+        if isinstance(o, (core.CompositionOperator, core.AdditionOperator, blocks.AbstractBlockOperator)):
+            continue
+        ls = [np.dtype(l.dtype) for s in (o.in_structure(), o.out_structure()) for l in jax.tree.leaves(s)]
+        if not (all(_inexact(d) for d in ls) or all(np.issubdtype(d, np.integer) for d in ls)):
+            return False
     return True
 
 
@@ -403,7 +573,32 @@ def short(e) -> str:
     return f'{type(e).__name__}: {str(e)[:160]}'
 
 
-def implied(case, op, env):
+def parts_guard(case, op, env, user, sp):
+    """Are the PARTS the case names - and the scalar its last construction step introduces - inside the guards of the
+    property (None: the case names no parts)?  Computed from the parts and from the parameters as the user supplied
+    them, never from the resulting object: a construction path that widens a parameter does not thereby leave the
+    property's scope."""
+    j = A.J()
+    core, jax = j['core'], j['jax']
+    rel = case.get('rel')
+    if not rel:
+        return None
+    kind, args = rel[0], [env[n] for n in rel[1:]]
+    inside = lambda a: real_avail(a) and real_wf(a) and strict_guard(a, user)  # noqa: E731
+    ok = all(inside(a) for a in args)
+    if kind in ('row', 'bdiagop', 'col'):
+        cont = A.container(case['cont'], env)
+        leaves = jax.tree.leaves(cont, is_leaf=lambda x: isinstance(x, core.AbstractLinearOperator))
+        ok = all(inside(a) for a in leaves) and real_avail(op)
+    if kind == 'T':
+        ok = ok and all_lt_ok(args[0])
+    if sp is not None:
+        _, _, eff, operand = sp
+        ok = ok and all(absorbs(eff, l) for l in jax.tree.leaves(operand.out_structure()))
+    return bool(ok)
+
+
+def implied(case, op, env, parts_ok):
     """Structures implied by the parts, for the composite kinds (independent of the result object)."""
     j = A.J()
     core, blocks, jax = j['core'], j['blocks'], j['jax']
@@ -411,10 +606,8 @@ def implied(case, op, env):
     if not rel:
         return None
     kind, args = rel[0], [env[n] for n in rel[1:]]
-    if not all(real_avail(a) and strict_guard(a) for a in args):
+    if not parts_ok:
         return None  # outside the guards: counted, not judged
-    if kind in ('row', 'bdiagop', 'col') and not (real_avail(op) and strict_guard(op)):
-        return None
     if kind == 'T' or kind == 'I':
         return [srepr(args[0].out_structure()), srepr(args[0].in_structure())]
     if kind == 'mm':  # product of the operands, left applied last
@@ -435,6 +628,32 @@ def implied(case, op, env):
     raise ValueError(rel)
 
 
+def note_scalar(name, d, env, known, user, scalars, sps):
+    """After building env[name]: if its description ends with a scalar construction step (k * op, op * k, op / k,
+    -op, a - b), find the HomothetyOperator objects that step CREATED and record for them the parameter the user
+    supplied (k, resp. 1 / k) - whatever the object now stores."""
+    j = A.J()
+    core, jnp = j['core'], j['jnp']
+    sp = scalar_path(d['e']) if d['k'] == 'expr' else None
+    if sp is None or not isinstance(sp[2], str):
+        return
+    path, k, on = sp
+    raw, eff = user_scalar(path, k)
+    operand = env[on]
+    sps[name] = (path, raw, eff, operand)
+    new = [o for i, o in subobjects(env[name]).items() if i not in known and isinstance(o, core.HomothetyOperator)]
+    if isinstance(operand, core.HomothetyOperator):
+        # k * H is ONE scalar operator: its parameter is the product of the two parameters
+        for h in new:
+            user[id(h)] = eff * user.get(id(operand), jnp.asarray(operand.value))
+        return
+    if isinstance(operand, core.AdditionOperator) and any(isinstance(o, core.HomothetyOperator) for o in operand.operand_leaves):
+        return  # -(H + A): some of the new scalar operators are products; the stored values are used
+    for h in new:
+        user[id(h)] = eff
+        scalars[id(h)] = (path, raw)
+
+
 def impl_case(case):
     """Runs in the process whose x64 mode equals case['x64']."""
     assert x64_mode() == bool(case['x64']), 'x64 mode mismatch'
@@ -446,6 +665,7 @@ def impl_case(case):
         from furax import Config
 
         env = {}
+        user, scalars, sps, known = {}, {}, {}, {}
         grid = case.get('grid')
         if grid:
             priv['_gleaves'] = [[int(n) for n in l.shape] for l in jax.tree.leaves(mk_struct(grid['s']))]
@@ -455,9 +675,11 @@ def impl_case(case):
                 if name == case['op'] and case.get('expect') == 'reject':
                     reason = reason or 'expected to be refused'
                 try:
-                    env[name] = build(d, env)
+                    env[name] = build(d, env, user)
+                    note_scalar(name, d, env, known, user, scalars, sps)
+                    subobjects(env[name], known)
                 except Exception as e:
-                    inside = all(real_avail(o) and strict_guard(o) for o in env.values())
+                    inside = all(real_avail(o) and strict_guard(o, user) for o in env.values())
                     obs = {'ctor_error': type(e).__name__, 'msg': str(e)[:200], 'illegal': reason, 'at': name, 'parts_inside_guards': inside}
                     if grid and name == case['op']:
                         # parameter shapes enumerated across the boundary of what the constructor accepts:
@@ -502,13 +724,24 @@ def impl_case(case):
             prom.append([got, ref])
         obs['promoted'] = prom
         obs['guard'] = bool(strict_guard(op))
+        # the same guard with the types of the parameters AS THE USER SUPPLIED THEM (constructor arguments, scalars)
+        obs['guard_user'] = bool(strict_guard(op, user))
         obs['wf'] = bool(real_wf(op))
         obs['avail'] = bool(real_avail(op))
-        obs['implied'] = implied(case, op, env)
-        enc = Enc()
+        parts_ok = parts_guard(case, op, env, user, sps.get(case['op']))
+        obs['guard_parts'] = parts_ok
+        obs['implied'] = implied(case, op, env, parts_ok)
+        if parts_ok and case['rel'][0] == 'same':
+            # the structure of an actual application of the operator this one stands for (unreduced / unscaled)
+            try:
+                obs['ref_actual'] = srepr(as_struct(env[case['rel'][1]].mv(probe_input(sin))))
+            except Exception as e:
+                obs['ref_actual'] = 'failed: ' + short(e)
+        enc = Enc(user, scalars)
         try:
             priv['_term'] = enc.term(op)
             priv['_info'] = enc.info_coq()
+            priv['_uinfo'] = enc.uinfo_coq()
             if enc.unsupported:
                 priv['_unsupported'] = enc.unsupported
         except Exception as e:
@@ -909,6 +1142,259 @@ def closure(L, names):
     return [(n, L[n]) for n in dict.fromkeys(names)]
 
 
+# ---------------------------------------------------------------------------------------------
+# mixed-PRECISION output pytrees x every construction path that introduces a scalar or a parameter
+
+F16, BF16 = 'float16', 'bfloat16'
+
+# every way of writing the scalar of k * op, op * k, op / k
+SCALARS_CORE = [2, 0.5, {'np': 2, 'dt': F32}, {'np': 2, 'dt': F16}, {'jax': 2, 'dt': I32}]
+SCALARS_MORE = [True, -3, {'np': 2, 'dt': F64}, {'np': 2, 'dt': I32}, {'np': 2, 'dt': 'int64'}, {'np0d': 4, 'dt': F32}, {'np0d': 4, 'dt': F16},
+                {'jax': 2, 'dt': F16}, {'jax': 2, 'dt': F32}, {'jax': 2, 'dt': F64}, {'jax': 2, 'dt': BF16}, {'jaxw': 0.5}, {'jaxw': 3}]
+
+
+def mixed_structs(x64):
+    """name -> (structure description, dtype of the narrowest leaf, dtype of the widest leaf)"""
+    out = {
+        'd16': ({'dict': {'lo': S([3], F16), 'hi': S([3], F32)}}, F16, F32),
+        'l16': ({'list': [S([3], F32), S([2, 3], F16)]}, F16, F32),
+        'b16': ({'dict': {'lo': S([3], BF16), 'hi': S([3], F32)}}, BF16, F32),
+        'n16': ({'tuple': [S([3], F16), {'dict': {'a': S([3], F32), 'b': S([1, 3], F16)}}]}, F16, F32),
+        'qu16': ({'stokes': 'QU', 'shape': [3], 'dtypes': [F16, F32]}, F16, F32),
+        'i32f': ({'dict': {'lo': S([3], I32), 'hi': S([3], F32)}}, I32, F32),
+    }
+    if x64:
+        out['d64'] = ({'dict': {'lo': S([3], F32), 'hi': S([3], F64)}}, F32, F64)
+        out['t64'] = ({'tuple': [S([3], F64), S([2, 3], F32), S([3], F16)]}, F16, F64)
+    return out
+
+
+def mixed_alphabet(sn, sd, lo, hi):
+    """Operators whose OUTPUT pytree has the mixed-precision structure (or the mixed precisions) of sd."""
+    L = {
+        f'mI.{sn}': {'k': 'ident', 's': sd},
+        f'mX.{sn}': {'k': 'index', 'idx': ['...', {'arr': [0, 2, 2, 1]}], 's': sd, 'tuple': True},   # 4 elements out of 3
+        f'mD.{sn}': {'k': 'diag', 'v': [1, 2, 3], 'pdt': lo, 's': sd},                              # values as narrow as the narrowest leaf
+        f'mHpy.{sn}': {'k': 'homoth', 'v': 0.5, 'pdt': 'py', 's': sd},
+        f'mHpi.{sn}': {'k': 'homoth', 'v': 3, 'pdt': 'py', 's': sd},
+        f'mHlo.{sn}': {'k': 'homoth', 'v': 2, 'pdt': lo, 's': sd},
+        f'mHhi.{sn}': {'k': 'homoth', 'v': 2, 'pdt': hi, 's': sd},                                   # wider than the narrowest leaf
+        f'mDhi.{sn}': {'k': 'diag', 'v': [1, 2, 3], 'pdt': hi, 's': sd},
+        f'mBD.{sn}': {'k': 'bdiag', 'v': [1, 2, 3], 'pdt': lo, 's': sd},
+    }
+    if 'stokes' in sd:
+        L[f'mW.{sn}'] = {'k': 'hwp', 's': sd}
+    if 'dict' in sd and set(sd['dict']) == {'lo', 'hi'}:
+        # a block diagonal operator over blocks of different precisions: in {lo: [3], hi: [3]} -> out {lo: [2], hi: [2]}
+        L[f'mAlo.{sn}'] = {'k': 'dense', 'm': [[1, 0, 2], [-1, 1, 0]], 'pdt': lo, 's': S([3], lo)}
+        L[f'mAhi.{sn}'] = {'k': 'dense', 'm': [[0, 1, 1], [2, 0, 1]], 'pdt': hi, 's': S([3], hi)}
+        L[f'mG.{sn}'] = {'k': 'bdiagop', 'blocks': {'dict': {'lo': f'mAlo.{sn}', 'hi': f'mAhi.{sn}'}}}
+    return L
+
+
+def mixed_cases(x64, rng, quick):
+    """The scalar / parameter construction paths on operators with mixed-precision outputs."""
+    out = []
+    for sn, (sd, lo, hi) in mixed_structs(x64).items():
+        L = mixed_alphabet(sn, sd, lo, hi)
+        floaty = lo != I32
+        core_struct = sn in ('d16', 'd64')
+
+        def add(kind, names, extra, rel, cont=None):
+            case = {'kind': 'mix:' + kind, 'x64': x64, 'dt': f'{lo}+{hi}', 'pdt': 'mixed', 'let': mixed_closure(L, names) + extra, 'op': extra[-1][0] if extra else names[-1], 'rel': rel}
+            if rel is None:
+                del case['rel']
+            if cont is not None:
+                case['cont'] = cont
+            out.append(case)
+
+        for n in sorted(L):
+            add('leaf', [n], [], None)
+            if floaty and not n.startswith(('mAlo', 'mAhi')):
+                add('T', [n], [('r', {'k': 'expr', 'e': {'T': n}})], ['T', n])
+            if floaty and n.split('.')[0] in ('mI', 'mD', 'mHpy', 'mHpi', 'mHlo', 'mHhi', 'mDhi'):
+                # inverses that COMPUTE a parameter (1 / value, 1 / diagonal)
+                add('I', [n], [('r', {'k': 'expr', 'e': {'I': n}})], ['I', n])
+                if not quick or rng.random() < 0.3:
+                    add('I-scaled', [n], [('i', {'k': 'expr', 'e': {'I': n}}), ('r', {'k': 'expr', 'e': {'smul': [2, 'i']}})], ['same', 'i'])
+        operands = [n for n in sorted(L) if n.split('.')[0] in ('mI', 'mX', 'mD', 'mHpy', 'mHlo', 'mG', 'mW', 'mBD')]
+        for n in operands:
+            head = n.split('.')[0]
+            core = core_struct and head in ('mX', 'mG', 'mD') or head == 'mX'
+            for k in SCALARS_CORE + SCALARS_MORE:
+                p = (1.0 if k in SCALARS_CORE or core_struct else 0.35) if not quick else ((1.0 if core_struct and head == 'mX' else 0.5) if k in SCALARS_CORE[:2] and core else (0.3 if k in SCALARS_CORE and core else 0.04))
+                for kind, e in (('smul', {'smul': [k, n]}), ('mulr', {'mulr': [n, k]}), ('div', {'div': [n, k]})):
+                    if rng.random() < p:
+                        add(kind, [n], [('r', {'k': 'expr', 'e': e})], ['same', n])
+            p = 1.0 if (core or not quick) else 0.4
+            if rng.random() < p:
+                add('neg', [n], [('r', {'k': 'expr', 'e': {'neg': n}})], ['same', n])
+            other = f'mX.{sn}' if head != 'mG' else n
+            pair = [n, other]
+            compatible = head in ('mX', 'mG')           # same structures on both sides
+            if compatible and rng.random() < p:
+                add('sub', pair, [('r', {'k': 'expr', 'e': {'sub': [n, other]}})], ['add', n, other])
+                add('sum', pair, [('r', {'k': 'expr', 'e': {'add': [n, other]}})], ['add', n, other])
+            if compatible and (not quick or core_struct or rng.random() < 0.5):
+                # a SUM negated / subtracted / scaled: AdditionOperator.__neg__ scales every operand
+                sm = ('s', {'k': 'expr', 'e': {'add': [n, other]}})
+                for kind2, e2, rel2 in (('sum-neg', {'neg': 's'}, ['same', 's']), ('sum-sub', {'sub': [n, 's']}, ['add', n, 's']),
+                                        ('sum-smul', {'smul': [3, 's']}, ['same', 's']), ('sum-div', {'div': ['s', 2]}, ['same', 's']),
+                                        ('sum-sub-sum', {'sub': ['s', 's']}, ['add', 's', 's'])):
+                    add(kind2, pair, [sm, ('r', {'k': 'expr', 'e': e2})], rel2)
+            # the scaled operator as a part: transposed, reduced, negated, summed, multiplied, put in a block, scaled again
+            for k in (3, 0.5, {'np': 2, 'dt': F32}, {'jax': 2, 'dt': F16}):
+                if rng.random() >= (p * (0.5 if quick else 1.0)):
+                    continue
+                t = ('t', {'k': 'expr', 'e': {'smul': [k, n]}})
+                second = [('reduce', {'reduce': 't'}, ['same', 't']), ('neg', {'neg': 't'}, ['same', 't']), ('smul', {'smul': [2, 't']}, ['same', 't']),
+                          ('div', {'div': ['t', 4]}, ['same', 't']), ('sum', {'add': ['t', n]}, ['add', 't', n]), ('sub', {'sub': [n, 't']}, ['add', n, 't'])]
+                if floaty:
+                    second.append(('T', {'T': 't'}, ['T', 't']))
+                for kind2, e2, rel2 in second:
+                    if quick and rng.random() >= 0.35:
+                        continue
+                    add('scaled-' + kind2, [n], [t, ('r', {'k': 'expr', 'e': e2})], rel2)
+                if not quick or rng.random() < 0.35:
+                    add('scaled-block', [n], [t, ('r', {'k': 'bdiagop', 'blocks': {'dict': {'u': 't', 'v': n}}})], ['bdiagop'], {'dict': {'u': 't', 'v': n}})
+                    add('scaled-col', [n], [t, ('r', {'k': 'col', 'blocks': ['t', n]})], ['col'], ['t', n])
+                if head in ('mX', 'mG') and (not quick or rng.random() < 0.5):
+                    # (k * op) @ D and (k * op).reduce() with a diagonal / scalar operator on the input side
+                    ins = f'mI.{sn}' if head == 'mX' else None
+                    if ins:
+                        add('scaled-mm', [n, f'mD.{sn}'], [t, ('c', {'k': 'expr', 'e': {'mm': ['t', f'mD.{sn}']}}), ('r', {'k': 'expr', 'e': {'reduce': 'c'}})], ['same', 'c'])
+                        add('scaled-mm-homoth', [n, f'mHpy.{sn}'], [t, ('c', {'k': 'expr', 'e': {'mm': ['t', f'mHpy.{sn}']}}), ('r', {'k': 'expr', 'e': {'reduce': 'c'}})], ['same', 'c'])
+    return out
+
+
+def mixed_closure(L, names):
+    """Let entries for the names, blocks' parts first."""
+    order = []
+    for n in names:
+        d = L[n]
+        for u in _used(d):
+            if u in L and u not in order:
+                order.append(u)
+        if n not in order:
+            order.append(n)
+    return [(n, L[n]) for n in order]
+
+
+# ---------------------------------------------------------------------------------------------
+# reduced operators: the documented patterns of every binary rule AND their near misses (pairs that look like a
+# pattern but must NOT be rewritten): alphabet and PATTERNS of harness/alg_cases.py + more near misses
+
+import alg_cases as G  # noqa: E402
+
+LETX = dict(G.LET)
+LETX.update({
+    'P3b': {'k': 'pack', 'mask': [True, True, False], 's': [3]},       # another mask, same count
+    'P3c': {'k': 'pack', 'mask': [True, False, False], 's': [3]},      # another mask, another count
+    'P3bT': {'k': 'expr', 'e': {'T': 'P3b'}},
+    'P3cT': {'k': 'expr', 'e': {'T': 'P3c'}},
+    'D2b': {'k': 'diag', 'v': [1, 3], 's': [2]},
+    'Rd': {'k': 'ravel', 's': {'dict': {'a': [2, 3], 'b': [3, 2]}}},
+    'Shd': {'k': 'reshape', 'shape': [1, 6], 's': {'dict': {'a': [2, 3], 'b': [3, 2]}}},
+    'Shd2': {'k': 'reshape', 'shape': [6], 's': {'dict': {'a': [2, 3], 'b': [3, 2]}}},   # the map of Rd, another class
+    'RdT': {'k': 'expr', 'e': {'T': 'Rd'}},
+    'ShdT': {'k': 'expr', 'e': {'T': 'Shd'}},
+    'Sh231': {'k': 'reshape', 'shape': [3, 1, 2], 's': [2, 3]},
+    'Sh231T': {'k': 'expr', 'e': {'T': 'Sh231'}},
+    'R23a': {'k': 'ravel', 'first': 0, 'last': 0, 's': [2, 3]},         # ravel of ONE axis: a no-op on the same input
+    'X3u2': {'k': 'index', 'idx': [{'arr': [1, 0]}], 's': [3], 'unique': True},
+    'X3u2T': {'k': 'expr', 'e': {'T': 'X3u2'}},
+    'X3u3': {'k': 'index', 'idx': [{'arr': [1]}], 's': [3], 'unique': True},
+    'X3u3T': {'k': 'expr', 'e': {'T': 'X3u3'}},
+    'M322': {'k': 'moveaxis', 'src': 0, 'dst': 2, 's': [3, 2, 2]},
+    'M223': {'k': 'moveaxis', 'src': 1, 'dst': 0, 's': [2, 2, 3]},      # composable with M322, not its inverse
+    'BCC': {'k': 'col', 'blocks': ['BC', 'A22']},
+    'BCn': {'k': 'col', 'blocks': [['B22', 'A22'], 'A22']},
+    'BRw': {'k': 'row', 'blocks': ['A23', 'A22']},                      # blocks of different widths
+    'BDw2': {'k': 'bdiagop', 'blocks': ['A33', 'B22']},
+    'BCw': {'k': 'col', 'blocks': ['A32', 'A22']},
+})
+PATTERNS_X = dict(G.PATTERNS)
+PATTERNS_X.update({
+    'near-pack-other-mask': ['P3', 'P3bT'],
+    'near-pack-other-count': ['P3', 'P3cT'],
+    'near-pack-other-count-2': ['P3c', 'P3T'],
+    'near-diag-inverse-other-operator': ['D2I', 'D2b'],
+    'near-reshape-pytree-different-operator': ['Shd', 'RdT'],
+    'near-reshape-pytree-different-operator-2': ['Rd', 'ShdT'],
+    'near-reshape-pytree-same-map-other-class': ['Shd2', 'RdT'],
+    'reshape-pytree-own-T': ['Shd', 'ShdT'],
+    'ravelT-ravel-pytree': ['RdT', 'Rd'],
+    'near-reshape-other-target': ['Sh231', 'Sh23T'],
+    'near-reshape-other-target-2': ['Sh23', 'Sh231T'],
+    'near-reshape-noop-ravel': ['Sh23', 'R23a'],
+    'near-index-indexT-distinct-unique': ['X3u', 'X3u2T'],
+    'near-index-indexT-distinct-count': ['X3u', 'X3u3T'],
+    'near-moveaxis-composable-not-inverse': ['M223', 'M322'],
+    'near-row-diag-nesting': ['BRR', 'BDnn'],
+    'near-diag-col-nesting': ['BDnn', 'BCC'],
+    'near-row-col-nesting': ['BRR', 'BCn'],
+    'row-diag-widths': ['BRw', 'BDw2'],
+    'diag-col-widths': ['BDw2', 'BCw'],
+    'row-col-widths': ['BRw', 'BCw'],
+})
+
+
+def alg_closure(names):
+    """Let entries (k = 'alg') for operands of the shared alphabet, dependencies first, in alphabet order."""
+    need = set()
+    for n in names:
+        need |= used_alg(n)
+    return [(n, {'k': 'alg', 'd': LETX[n]}) for n in LETX if n in need]
+
+
+def used_alg(n, acc=None):
+    acc = set() if acc is None else acc
+    if n in acc or n not in LETX:
+        return acc
+    acc.add(n)
+    d = LETX[n]
+    if d['k'] == 'expr':
+        for u in _expr_names(d['e']):
+            used_alg(u, acc)
+    if 'blocks' in d:
+        for u in _names(d['blocks']):
+            used_alg(u, acc)
+    return acc
+
+
+def pattern_cases(x64, rng, quick):
+    """Every pattern and near miss: the product (constructor and @), and its reduced form - declared structures vs
+    those implied by the parts, vs eval_shape, vs an actual application, vs an application of the unreduced product."""
+    out = []
+    for pname, names in PATTERNS_X.items():
+        near = pname.startswith('near-')
+        if quick and x64 and not near:
+            continue  # float32 operands throughout: the other 64-bit mode for the near misses only
+        base = alg_closure(names)
+        ctxs = [('comp', {'comp': names} if len(names) > 1 else names[0])]
+        if len(names) > 1:
+            ctxs.append(('mm', {'chain': names}))
+        if quick and x64:
+            ctxs = ctxs[-1:]
+        for nctx, (ctx, e) in enumerate(ctxs):
+            if isinstance(e, str):
+                product, cname = [], e
+            else:
+                product, cname = [('c', {'k': 'expr', 'e': e})], 'c'
+                out.append({'kind': f'pat:{ctx}', 'pattern': pname, 'x64': x64, 'dt': F32, 'pdt': F32, 'let': base + product, 'op': 'c', 'rel': ['mm'] + names})
+            out.append({'kind': f'pat:{ctx}-reduce', 'pattern': pname, 'x64': x64, 'dt': F32, 'pdt': F32,
+                        'let': base + product + [('r', {'k': 'expr', 'e': {'reduce': cname}})], 'op': 'r', 'rel': ['same', cname]})
+            if not quick or (near and not x64 and nctx == len(ctxs) - 1) or rng.random() < 0.1:
+                # ... and as a part of a larger operator: a block, scaled
+                out.append({'kind': f'pat:{ctx}-block-reduce', 'pattern': pname, 'x64': x64, 'dt': F32, 'pdt': F32,
+                            'let': base + product + [('b', {'k': 'bdiagop', 'blocks': {'dict': {'x': cname, 'y': cname}}}), ('r', {'k': 'expr', 'e': {'reduce': 'b'}})],
+                            'op': 'r', 'rel': ['same', 'b']})
+                out.append({'kind': f'pat:{ctx}-scaled-reduce', 'pattern': pname, 'x64': x64, 'dt': F32, 'pdt': F32,
+                            'let': base + product + [('t', {'k': 'expr', 'e': {'smul': [2, cname]}}), ('r', {'k': 'expr', 'e': {'reduce': 't'}})],
+                            'op': 'r', 'rel': ['same', 't']})
+    return out
+
+
 REJECTS = [
     # constructor validation: these must be refused
     ('diag-wider-values', [('r', {'k': 'diag', 'v': [[1, 2, 3], [1, 1, 1]], 's': S([3], F32)})]),
@@ -960,6 +1446,14 @@ class Check(PropertyCheck):
         'compared with the real constructors and the real mv on the parameter grid)',
         'correspondence harness harness/c05.py: operand builder, encoder (terms + type/shape of the array parameters), '
         'the independent re-computation of the guards on the real objects, the x64 worker subprocess protocol',
+        'the type (dtype, weak flag) of a parameter as the user supplied it is the type of the array handed to the constructor / '
+        'of jnp.asarray(k) for the scalar of k * op (1 / jnp.asarray(k) for op / k: JAX arithmetic, no furax code); the '
+        'HomothetyOperator objects a scalar construction path created are recognised as those that did not exist in the parts. '
+        'op / k for a strongly typed INTEGER k (np.int32(2)) on data narrower than float32 counts as a parameter (1 / k: float32) '
+        'wider than the data: outside the guard (the unchanged code then returns float32 for a float16 leaf)',
+        'kinds pat:* (reduced patterns and near misses) and the dtype corners float16 / bfloat16: the oracle is implementation-side '
+        '(structures implied by the parts, jax.eval_shape, an actual application, an application of the unreduced operator); the '
+        'model side compares the declared structures / guards / abstract evaluation of the RESULTING object only',
     ]
 
     # -- cases ---------------------------------------------------------------------------------
@@ -993,6 +1487,8 @@ class Check(PropertyCheck):
                     out.append(case)
             for name, let in REJECTS:
                 out.append({'kind': 'reject:' + name, 'x64': x64, 'let': let, 'op': let[-1][0], 'expect': 'reject'})
+            out += mixed_cases(x64, rng, quick)
+            out += pattern_cases(x64, rng, quick)
             # parameter grids across the accept / reject and the broadcast-into / wider-than boundaries
             if quick:
                 plan = [(F32, F32, 1.0, 0.25, 0.12, 0.3)] if not x64 else [(F64, F32, 0.1, 0.1, 0.03, 0.1), (F32, F64, 0.05, 0.05, 0.02, 0.05), (F32, F32, 0.05, 0.05, 0.02, 0.05)]
@@ -1019,7 +1515,16 @@ class Check(PropertyCheck):
             'duplicates and fewer axes than dimensions} x 17 input structures (rank 0-3 leaves, unit axes, mixed-rank and '
             'mixed-dtype pytrees, rank-0 leaves, Stokes) - quick tier: the size-1 value shapes on 8 core structures exhaustively, the rest sampled; Toeplitz band batch '
             'shapes x data batch shapes x 4 methods; rotation angle shapes x Stokes kinds x leaf shapes (+ transposes); '
-            'scalars / HWP / polariser on rank-0 and mixed-rank leaves. Non-trivial: the declared output structure '
+            'scalars / HWP / polariser on rank-0 and mixed-rank leaves. Mixed-PRECISION outputs (mix:*): identity, index, '
+            'diagonal, broadcast diagonal, scalar (Python / narrow / wide parameter), HWP and block-diagonal operators on '
+            '{f16+f32, bf16+f32, f32+f64, f16+f32+f64, i32+f32} x {dict, list, nested, Stokes} x the construction paths '
+            'k*op, op*k, op/k, -op, a-b, a+b, -(a+b), a-(b+c), k*(a+b), .I (computed 1/value), and the scaled operator as a '
+            'part (.T, .reduce(), negated, scaled again, divided, summed, subtracted, in a block diagonal / column, multiplied '
+            'and reduced) x 18 ways of writing the scalar (Python int/float/bool, NumPy scalar / 0-d array and JAX scalar of '
+            'f16/bf16/f32/f64/i32/i64, weakly typed JAX scalars); quick tier: Python int and float on the index operator '
+            'of {f16+f32} / {f32+f64} exhaustively, the rest sampled. Reduced operators (pat:*): the 53 patterns of '
+            'harness/alg_cases.py + 21 more (74, of which 30 near misses that must NOT be rewritten), as CompositionOperator and '
+            'through @, alone / in a block diagonal / scaled, reduced. Non-trivial: the declared output structure '
             'differs from the input structure, or a guard is false, or the constructor refused.'
         )
 
@@ -1046,10 +1551,12 @@ class Check(PropertyCheck):
         if case.get('_unsupported') or '_term' not in case:
             return None
         e, info, x64 = case['_term'], case['_info'], cbool(case['x64'])
+        uinfo = case.get('_uinfo', info)
         term = (
-            f'(let e : xop := {e} in let info := {info} in '
-            f'(c05_obs {x64} info e, show_struct (in_struct e), show_struct (out_struct e), '
-            f'option_map show_struct (xeval {x64} info e (in_struct e))))'
+            f'(let x64 := {x64} in let e : xop := {e} in let info := {info} in let uinfo := {uinfo} in '
+            f'(c05_obs x64 info e, show_struct (in_struct e), show_struct (out_struct e), '
+            f'option_map show_struct (xeval x64 info e (in_struct e)), '
+            f'params_not_wider x64 uinfo e, option_map show_struct (xeval x64 uinfo e (in_struct e))))'
         )
         if case.get('grid'):
             return f'({term}, {self.grid_term(case)})'
@@ -1074,26 +1581,34 @@ class Check(PropertyCheck):
     def decode(self, case, v):
         if case.get('grid') and '_term' not in case:
             return {'grid': self.decode_grid(v)}
-        wf, pnw, av, ck, sizes, prom, sin, sout, ev = v[:9]
-        evs = None
+        wf, pnw, av, ck, sizes, prom, sin, sout, ev, pnw_u, ev_u = v[:11]
+        evs = evs_u = None
         if isinstance(ev, dict) and ev.get('c') == 'Some':
             evs = A.decode_struct(ev['a'][0])
+        if isinstance(ev_u, dict) and ev_u.get('c') == 'Some':
+            evs_u = A.decode_struct(ev_u['a'][0])
 
         def pid(x):
             return x['a'][0] if isinstance(x, dict) and x.get('c') == 'Some' else None
 
         if not av:
-            evs = pnw = 'not compared: a declared dtype does not exist in this mode'
-        elif not pnw and not case['kind'].startswith(('leaf', 'grid')):
-            evs = 'not compared: composite with parameters wider than the data'
+            evs = pnw = evs_u = pnw_u = 'not compared: a declared dtype does not exist in this mode'
+        else:
+            if not pnw and not case['kind'].startswith(('leaf', 'grid')):
+                evs = 'not compared: composite with parameters wider than the data'
+            if not pnw_u and not case['kind'].startswith(('leaf', 'grid')):
+                evs_u = 'not compared: composite with parameters wider than the data'
         d = {
             'wf': wf, 'guard': pnw, 'avail': av, 'ctor': ck, 'in': A.decode_struct(sin), 'out': A.decode_struct(sout), 'eval': evs,
             'sizes': list(sizes), 'promoted': [pid(prom[0]), pid(prom[1])],
+            # with the types of the parameters the USER supplied (the model computes the type of the scalar operator
+            # of k * op / op / k itself: Structs.scalar_param_ty): the guard, and what mv then returns
+            'guard_user': pnw_u, 'eval_user': evs_u,
         }
         if not av:
             d['ctor'] = 'not compared: a declared dtype does not exist in this mode'
         if case.get('grid'):
-            d['grid'] = self.decode_grid(v[9])
+            d['grid'] = self.decode_grid(v[11])
         return d
 
     def comparable(self, case, obs):
@@ -1105,10 +1620,14 @@ class Check(PropertyCheck):
             'wf': obs['wf'], 'guard': obs['guard'], 'avail': obs['avail'], 'ctor': obs['ctor'], 'in': obs['in'], 'out': obs['out'],
             'eval': obs['eval'], 'sizes': obs['sizes'], 'promoted': [obs['promoted'][0][1], obs['promoted'][1][1]],
         }
+        d['guard_user'], d['eval_user'] = obs['guard_user'], obs['eval']
         if not obs['avail']:
-            d['eval'] = d['guard'] = d['ctor'] = 'not compared: a declared dtype does not exist in this mode'
-        elif not obs['guard'] and not case['kind'].startswith(('leaf', 'grid')):
-            d['eval'] = 'not compared: composite with parameters wider than the data'
+            d['eval'] = d['guard'] = d['ctor'] = d['eval_user'] = d['guard_user'] = 'not compared: a declared dtype does not exist in this mode'
+        else:
+            if not obs['guard'] and not case['kind'].startswith(('leaf', 'grid')):
+                d['eval'] = 'not compared: composite with parameters wider than the data'
+            if not obs['guard_user'] and not case['kind'].startswith(('leaf', 'grid')):
+                d['eval_user'] = 'not compared: composite with parameters wider than the data'
         if 'grid' in obs:
             d['grid'] = obs['grid']
         return d
@@ -1153,15 +1672,25 @@ class Check(PropertyCheck):
             return f'structures {[obs["in"], obs["out"]]} differ from those implied by the parts {imp}'
         if not obs['wf']:
             st['ill_formed_composite_from_parts_outside_guards'] = st.get('ill_formed_composite_from_parts_outside_guards', 0) + 1
-        if obs['guard'] and obs['avail'] and obs['wf']:
+        # inside the property's scope: the parameters AS SUPPLIED (constructor arguments, scalars of k * op, op / k,
+        # -op, a - b) and the parts are inside the guards - whatever the resulting object stores
+        inside = obs['guard'] or obs['guard_user'] or bool(obs.get('guard_parts'))
+        how = ''
+        if inside and not obs['guard']:
+            st['judged_although_stored_parameters_are_wider'] = st.get('judged_although_stored_parameters_are_wider', 0) + 1
+            how = ' [the parameters supplied are no wider than the data; the operator stores wider ones]'
+        if inside and obs['avail'] and obs['wf']:
             if obs['eval'] is None:
                 return f'mv cannot be traced on the declared input structure: {obs.get("eval_error")}'
             if obs['eval'] != obs['out']:
-                return f'declared out_structure {obs["out"]} differs from jax.eval_shape(mv, in_structure) {obs["eval"]}'
+                return f'declared out_structure {obs["out"]} differs from jax.eval_shape(mv, in_structure) {obs["eval"]}' + how
             if obs['actual'] is None:
                 return f'mv failed on an input of the declared structure: {obs.get("actual_error")}'
             if obs['actual'] != obs['out']:
-                return f'declared out_structure {obs["out"]} differs from the structure of mv(x) {obs["actual"]} for x of structure {obs.get("x")}'
+                return f'declared out_structure {obs["out"]} differs from the structure of mv(x) {obs["actual"]} for x of structure {obs.get("x")}' + how
+            ra = obs.get('ref_actual')
+            if ra is not None and ra != obs['actual']:
+                return f'mv(x) has structure {obs["actual"]} but applying the operator it stands for ({case["rel"][1]}) gives {ra}, x of structure {obs.get("x")}' + how
         return None
 
     def extra(self):
